@@ -1030,6 +1030,26 @@ pub fn unit_sizes() -> Report {
             }
         }
     } } }
+    // the limit REMOVED (set_max_allowable_tag_size(None)): no declared size is too big; masters declare sizes without any
+    // allocation, so sizes beyond the 4 GB default can be tried.  With the default (or a finite limit) the same input is rejected.
+    for w in 5..=8usize { for n in [default_limit + 1, 5_000_000_000u64, 1 << 40] { for allow in 0u8..8 {
+        if (n as u128) >= (1u128 << (7 * w)) - 1 { continue; }
+        let mut input = vec![bs::ROOT as u8];
+        input.extend(sizef(n as usize, w));
+        input.extend_from_slice(&[bs::UINT as u8, 0x81, 0x01]);
+        for (limit_cfg, removed) in [(Some(None), true), (None, false), (Some(Some(100_000usize)), false)] {
+            let cfg = Cfg { max: limit_cfg, allow, cap: 0, ..Cfg::strict() };
+            let t = run(&input, &cfg);
+            rep.cases += 1; rep.nontrivial += 1;
+            check_total(&input, &cfg, &t, &mut rep);
+            let ctx = || format!("input={} {} -> {}", rf::hex(&input), cfg.show(), show_trace(&t));
+            if removed {
+                rep.clause("C13/C17: with the size limit removed no declared size is reported as too big (the limit is whatever was configured last)", !matches!(t.err, Some(E::TooBig { .. })) && t.items.len() >= 2, &ctx);
+            } else {
+                rep.clause("C17/C13: an element declaring more than the limit is rejected (size error unless an earlier check rejects it) under every tolerance mask", matches!(t.err, Some(E::TooBig { size, .. }) if size as u64 == n), &ctx);
+            }
+        }
+    } } }
     rep
 }
 
